@@ -122,6 +122,9 @@ def group_by_until_(
                         return
 
                     observer.on_next(group)
+                    if ref_count_disposable.is_disposed:
+                        return
+
                     sad = SingleAssignmentDisposable()
                     group_disposable.add(sad)
 
